@@ -196,6 +196,10 @@ let exec (a : string array) (_input : int array ref) (bytes : string -> int arra
           end else Some (Printf.sprintf "err st=%d" (int_of_z (status_code st)))
     end
   | "cnew" -> c := Some (comp_new (n_of_int (num a.(1))) (n_of_int 15)); Some "ok"
+  | "cnewzip" ->
+      let (r, _) = create_comp_flags_from_zip_params (z_of_int (num a.(1))) (z_of_int (num a.(2))) (z_of_int (num a.(3))) in
+      let f = (int_of_z r) lor 0x2000 in
+      c := Some (comp_new (n_of_int f) (n_of_int 15)); Some (Printf.sprintf "flags=%d" f)
   | "cdefault" -> c := Some (comp_new dEFAULT_FLAGS (n_of_int 15)); Some "ok"
   | "cparams" ->
       let cc = with_params (num a.(1) <> 2) (n_of_int (num a.(2))) (n_of_int (num a.(3))) (n_of_int (num a.(4))) in
